@@ -30,7 +30,18 @@ fn arb_sj_value() -> BoxedStrategy<J> {
 		3 => gen::arb_string().prop_map(J::String),
 	];
 	let wide = proptest::collection::vec((gen::arb_long_key(), leaf.clone()), 9..90).prop_map(|es| J::Object(es.into_iter().collect()));
-	let tree = leaf.prop_recursive(4, 48, 6, |inner| {
+	// objects using serde_json's private number token as a key (alone or not, with numeric strings or anything else)
+	let token_obj = (prop_oneof![3 => prop::sample::select(vec!["1.5", "-0", "12e3", "0", "1", "x", ""]).prop_map(|s| J::String(s.to_string())), 1 => leaf.clone()], proptest::option::of((gen::arb_key(true), leaf.clone())))
+		.prop_map(|(v, extra)| {
+			let mut m = serde_json::Map::new();
+			m.insert("$serde_json::private::Number".to_string(), v);
+			if let Some((k, x)) = extra {
+				m.insert(k, x);
+			}
+			J::Object(m)
+		});
+	let leaf = prop_oneof![30 => leaf, 1 => token_obj].boxed();
+	let tree = leaf.clone().prop_recursive(4, 48, 6, |inner| {
 		prop_oneof![
 			1 => proptest::collection::vec(inner.clone(), 0..=5).prop_map(J::Array),
 			2 => proptest::collection::vec((gen::arb_key(true), inner), 0..=6).prop_map(|es| J::Object(es.into_iter().collect())),
@@ -247,6 +258,7 @@ fn outcome(r: Result<(bool, Vec<&'static str>), (String, Option<&'static str>)>)
 /// Numbers of the stated domain: 64-bit integers or finite doubles (spelled in any way).
 fn arb_domain_number() -> BoxedStrategy<String> {
 	prop_oneof![
+		3 => super::c09::arb_respelled_double(),
 		3 => any::<i64>().prop_map(|i| i.to_string()),
 		2 => any::<u64>().prop_map(|u| u.to_string()),
 		3 => any::<u64>().prop_filter_map("finite", |b| { let f = f64::from_bits(b); if f.is_finite() { Some(format!("{f:e}")) } else { None } }),
@@ -304,7 +316,7 @@ pub fn run(ctx: &mut Ctx) {
 	if ctx.wants("U_unrestricted_no_panic") {
 		let n = ctx.pick(100_000, 1_500_000);
 		let fam = Fam::new("U_unrestricted_no_panic", "proptest: unrestricted json-syntax values (duplicate keys, every number spelling up to 400 digits, beyond the double range): neither direction may panic; non-trivial = duplicate keys or a number beyond the double range", false);
-		let fam = run_proptest(ctx, fam, n, || arb_domain_value(gen::arb_number(true), true), |v| outcome(no_panic(v)), |v| json!({"value": v.encode()}));
+		let fam = run_proptest(ctx, fam, n, || arb_domain_value(prop_oneof![3 => gen::arb_number(true), 1 => super::c09::arb_respelled_double()].boxed(), true), |v| outcome(no_panic(v)), |v| json!({"value": v.encode()}));
 		ctx.add(fam);
 	}
 	if ctx.wants("K_known_finding_probes") {
